@@ -121,7 +121,17 @@ SHAPES = {
         ["data", {"Prefixed": {"length": "u32le", "includelength": False,
                                "sub": {"Struct": [["fourcc", {"Const": b"WAVE".hex()}], ["chunks", {"GreedyRange": _CHUNK}]]}}}]]},
 }
-SHAPES_BY_PROPERTY = {"C04": ["formats.wav:RiffStruct"]}
+# C09: what makes a file "MODE1/2352 raw sectors" / "an MDX wrapper" - the detection predicates are `this header parses`, so the
+# declaration tree IS the predicate.  A raw sector is recognised by the 12-byte sync pattern and the mode byte 1, whatever its 3-byte
+# (BCD minute/second/frame) address: a data track need not start at 00:02:00.  An MDX file by its magic, a copyright field that
+# starts with the (c) sign 0xA9, and the 64-bit end-of-data offset at byte 48.  No other validator, no other constant.
+SHAPES["alcohol.mdf:MdfSectorHeaderConstruct"] = {"Struct": [
+    ["magic", {"Const": (b"\x00" + b"\xff" * 10 + b"\x00").hex()}], ["id", "u24be"], [None, {"Const": 1}]]}
+SHAPES["alcohol.mdx:MdxHeaderConstruct"] = {"Struct": [
+    ["magic", {"Const": b"MEDIA DESCRIPTOR".hex()}], ["version", {"Default": {"Bytes": 2}}],
+    ["copyright", {"ExprValidator": {"sub": {"Default": {"Bytes": 26}}, "validator": {"op": "eq", "lhs": {"path": "obj_[0]"}, "rhs": {"const": 0xA9}}}}],
+    [None, {"Padded": {"length": 4, "sub": "Pass"}}], ["eof", "u64le"], [None, {"Padded": {"length": 8, "sub": "Pass"}}]]}
+SHAPES_BY_PROPERTY = {"C04": ["formats.wav:RiffStruct"], "C09": ["alcohol.mdf:MdfSectorHeaderConstruct", "alcohol.mdx:MdxHeaderConstruct"]}
 
 # ---------------------------------------------------------------------------------------------------------------------------
 # AKAI program header / keygroup / velocity zone (C20): generated from the field tables of the INDEPENDENT program writer
